@@ -132,6 +132,17 @@ add('C20', 'model_checking',
     'histories, hashable / identity-keyed / identity-keyed-but-equal nodes, both modes; TLC evaluates the oracle.',
     TRUSTED, 'TLA+ spec + TLC model checking (safety + liveness) + TLC-evaluated oracle on real calls', 'DESIGN.md 5/C20')
 
+add('C13', 'model_checking',
+    'TLC (StdStreams.tla) enumerates every history of 2 tests, each any interleaving of <= 2 writes, <= 2 '
+    '(thorough 3) result events of every kind (incl. a never-started skip) and redirections of a std stream by '
+    'the test itself, with and without --buffer: NoLeak, Complete, Attributed, Restored, NeverReplaced, '
+    'NotAborted; five deviation configs each produce a counterexample. Real in-process runs of every ordered '
+    'pair (thorough: triples) of 16 outcome kinds with writes sprinkled over all phases (stdout / stderr, '
+    'no newline, via .buffer), --buffer on / off, three kinds of original stream, are judged by TLC clause by '
+    'clause from the measured write / event history, and the I-spec must predict the exact output sequence (DRIFT).',
+    TRUSTED + ' Where a write sits relative to the result events of its test is measured under stock unittest.',
+    'TLA+ spec + TLC model checking + TLC validation of real runs against P- and I-spec', 'DESIGN.md 5/C13')
+
 NOT_YET = {
 }
 
